@@ -7,6 +7,7 @@ import (
 	"encoding/json"
 	"fmt"
 	"net"
+	"reflect"
 	"regexp"
 	"strconv"
 	"strings"
@@ -78,11 +79,15 @@ func c14Run(c *ev.Ctx, k c14Case, serial bool) {
 	if serial {
 		vrand.ResetLog()
 	}
+	passed := append([]string{}, k.Args...) // the function gets its own copy: the reference below uses the caller's vector
 	if pm := ev.Guard(func() {
-		p, err = csr.NewReqParam(func(s string) string { return env[s] }, func() []string { return k.Args })
+		p, err = csr.NewReqParam(func(s string) string { return env[s] }, func() []string { return passed })
 	}); pm != "" {
 		c.Violation("C14:panic:"+ev.PanicSite(pm), pm, k)
 		return
+	}
+	if !reflect.DeepEqual(passed, k.Args) && !(len(passed) == 0 && len(k.Args) == 0) {
+		c.Count("calls_that_modified_their_argument_vector", 1) // not demanded by the statement; the reference uses the caller's copy
 	}
 	// reference facts from the statement
 	var toks []string
@@ -218,7 +223,7 @@ func c14Commands() []string {
 }
 
 func checkC14(c *ev.Ctx) {
-	c.Rule("SSH_ORIGINAL_COMMAND from a 60-text catalogue (JSON objects with good/missing/mistyped fields and 8 version spellings, other JSON values, legacy k=v texts, empty, raw bytes) x LOGNAME{5} x SSH_CONNECTION{11} x argument vectors: part A (serial, CSPRNG identity checked) all commands x lognames x connections x 8 vectors; part B all vectors of 0..4 arguments over an 8-token alphabet (thorough: 0..8 over 4 tokens as well) x reduced command/logname/connection sets; each compared with a reference model written from the statement. non-trivial = accepted input; distinct by input")
+	c.Rule("SSH_ORIGINAL_COMMAND from a 60-text catalogue (JSON objects with good/missing/mistyped fields and 8 version spellings, other JSON values, legacy k=v texts, empty, raw bytes) x LOGNAME{5} x SSH_CONNECTION{11} x argument vectors: part A (serial, CSPRNG identity checked) all commands x lognames x connections x 8 vectors; part B all vectors of 0..4 arguments over a 9-token alphabet (incl. space-containing arguments that end in a policy token) (thorough: 0..8 over 4 tokens as well) x reduced command/logname/connection sets; each compared with a reference model written from the statement. non-trivial = accepted input; distinct by input")
 	c.Assume("transid bytes come through the csprng seam (crypto/rand import of csr/transid redirected to a recording deterministic stream)")
 	if c.ReplayCase != nil {
 		var k c14Case
@@ -243,7 +248,7 @@ func checkC14(c *ev.Ctx) {
 	c.Sample(c14Case{Cmd: cmds[0], LogName: "alice", Conn: conns[0], Args: argvs[2]})
 	c.Sample(c14Case{Cmd: "null", LogName: "alice", Conn: conns[0], Args: argvs[0]})
 	// part B: all argument vectors
-	alpha := []string{"/usr/bin/gensign", "NONS", "NSOK", "nons", "Regular", "NONS Regular", "a b c", ""}
+	alpha := []string{"/usr/bin/gensign", "NONS", "NSOK", "nons", "Regular", "NONS Regular", "a b c", "", "g NSOK"}
 	var vecs [][]string
 	var rec func(pre []string, d, max int, al []string)
 	rec = func(pre []string, d, max int, al []string) {
